@@ -8,11 +8,11 @@
 (*                                                                         *)
 (* The mechanism is data (record Mech, DESIGN 2.1 / app. B):               *)
 (*   MechIntended - every choice made so that the invariants hold;         *)
-(*   MechObserved - transcribed from uxarray/grid/grid.py:1647-1917,       *)
-(*                  geometry.py:163-244, 419-533, core/dataarray.py:153-346*)
-(*                  (after fix 5278ad57: lines store their projection).    *)
-(*   MechLinesOld - MechObserved with the line cache storing               *)
-(*                  periodic_elements twice (before 5278ad57).             *)
+(*   MechObserved - transcribed from uxarray/grid/grid.py:1647-1919,       *)
+(*                  geometry.py:163-244, 419-533, core/dataarray.py:153-348*)
+(*                  at /repo HEAD (fixes 5278ad57, 2b8af081, fe3231b0 in). *)
+(*   MechLinesOld, MechDataInCache, MechLineAliased - the mechanisms those *)
+(*                  three commits repaired.                                *)
 (* Intended invariants (clauses, field `bad` of the state):                *)
 (*   GeometryOfThisCall  the geometry returned is the one this call's      *)
 (*                       arguments denote                                  *)
@@ -53,13 +53,18 @@ ColName(ev)   == IF Kind(ev) = "gdf" THEN ev.var ELSE "arr"
 IdealCols(ev) == IF IsData(ev) THEN { [ name |-> ColName(ev), var |-> ev.var, al |-> IdealAlign(ev) ] } ELSE {}
 
 (* ---- mechanism ------------------------------------------------------------------ *)
-MechIntended == [ gdfCmp |-> {"pe", "proj", "eng", "project"}, gdfReturned |-> "copy", sideTables |-> "cache_entry",
+MechIntended == [ gdfCmp |-> {"pe", "proj", "eng", "project"}, gdfReturned |-> "copy", gdfDataInto |-> "copy", sideTables |-> "cache_entry",
                   polyCmp |-> {"pe", "proj"}, lineStore |-> {"pe", "proj"}, lineCmp |-> {"pe", "proj"}, lineReturned |-> "copy" ]
-MechObserved == [ gdfCmp |-> {"pe", "proj", "eng"}, gdfReturned |-> "cached_object", sideTables |-> "last_compute",
-                  polyCmp |-> {"pe", "proj"}, lineStore |-> {"pe", "proj"}, lineCmp |-> {"pe", "proj"}, lineReturned |-> "cached_object" ]
-MechLinesOld == [ MechObserved EXCEPT !.lineStore = {"pe"} ]
-\* single knobs of MechObserved turned to their intended value (used to explain a failure)
-Knobs == {"gdfCmp", "gdfReturned", "sideTables", "lineReturned"}
+\* as read at /repo HEAD (after 5278ad57 lines store their projection, 2b8af081 the data column goes
+\* into a copy of the frame, fe3231b0 line collections are handed out as copies)
+MechObserved == [ gdfCmp |-> {"pe", "proj", "eng"}, gdfReturned |-> "cached_object", gdfDataInto |-> "copy", sideTables |-> "last_compute",
+                  polyCmp |-> {"pe", "proj"}, lineStore |-> {"pe", "proj"}, lineCmp |-> {"pe", "proj"}, lineReturned |-> "copy" ]
+\* earlier mechanisms (each repaired by a commit; TLC shows that each breaks the clauses)
+MechLinesOld     == [ MechObserved EXCEPT !.lineStore = {"pe"} ]                 \* before 5278ad57
+MechDataInCache  == [ MechObserved EXCEPT !.gdfDataInto = "cached_frame" ]       \* before 2b8af081
+MechLineAliased  == [ MechObserved EXCEPT !.lineReturned = "cached_object" ]     \* before fe3231b0
+\* single knobs turned to their intended value (used to explain a failure)
+Knobs == {"gdfCmp", "gdfReturned", "gdfDataInto", "sideTables", "lineReturned"}
 Flip(M, kn) == [ M EXCEPT ![kn] = MechIntended[kn] ]
 
 (* ---- state ---------------------------------------------------------------------- *)
@@ -82,14 +87,15 @@ St0 == [ gdf  |-> [ present |-> FALSE, obj |-> 0, val |-> NoVal, key |-> NoKey, 
 SetCol(cols, c) == { x \in cols : x.name # c.name } \cup { c }
 
 \* ---- GeoDataFrame ----
+\* the cache holds the frame either as an object the caller can reach (obj # 0) or privately (val)
 GdfStep(s, ev, M) ==
     LET hit == s.gdf.present /\ KeyHit(s.gdf.key, ev, M.gdfCmp) /\ ~ev.override
-        byObj == M.gdfReturned = "cached_object"
-        \* the cached frame: the caller's object (aliasing) or a private value
-        cachedVal == IF byObj THEN s.heap[s.gdf.obj] ELSE s.gdf.val
+        \* does this call hand out the grid's own frame (rather than a copy of it)?
+        own    == M.gdfReturned = "cached_object" /\ ~(IsData(ev) /\ M.gdfDataInto = "copy")
+        cachedVal == IF s.gdf.obj # 0 THEN s.heap[s.gdf.obj] ELSE s.gdf.val
         fresh  == [ geom |-> GeomTag(ev), cols |-> {}, edited |-> FALSE ]
         base   == IF hit THEN cachedVal ELSE fresh
-        newObj == ~(hit /\ byObj)
+        newObj == ~(hit /\ own /\ s.gdf.obj # 0)
         r      == IF newObj THEN Len(s.heap) + 1 ELSE s.gdf.obj
         gdfAm1 == IF hit THEN s.gdfAm ELSE AmVal(ev)              \* written by every computation
         nn     == IF hit THEN s.gdf.nn ELSE NnVal(ev)
@@ -98,8 +104,9 @@ GdfStep(s, ev, M) ==
         withData == IF IsData(ev) THEN [ base EXCEPT !.cols = SetCol(@, [ name |-> ColName(ev), var |-> ev.var, al |-> al ]) ] ELSE base
         heap1  == IF newObj THEN Append(s.heap, withData) ELSE [ s.heap EXCEPT ![r] = withData ]
         store  == ~hit /\ ev.cache
-        gdf1   == IF store THEN [ present |-> TRUE, obj |-> IF byObj THEN r ELSE 0, val |-> fresh, key |-> KeyOf(ev),
+        gdf1   == IF store THEN [ present |-> TRUE, obj |-> IF own THEN r ELSE 0, val |-> fresh, key |-> KeyOf(ev),
                                   nn |-> NnVal(ev), am |-> AmVal(ev) ]
+                  ELSE IF hit /\ own /\ s.gdf.obj = 0 THEN [ s.gdf EXCEPT !.obj = r ]     \* the grid's frame reaches the caller now
                   ELSE s.gdf
     IN [ s EXCEPT !.gdf = gdf1, !.gdfAm = gdfAm1, !.heap = heap1, !.ret = r, !.raised = FALSE ]
 
